@@ -41,7 +41,25 @@ What the code does, and the model follows:
   call — serial, script step (the scripted inner service hands out steps in **call** order) and
   `inner_call` event — happens in the `adv` step in which the clone has become ready, in the order
   the runtime delivered it (`@rdy=c:i`, an observed choice like `@done=k`). The select loop never
-  waits for that readiness: results keep being received while a clone is warming up.
+  waits for that readiness: results keep being received while a clone is warming up. A clone whose first readiness
+  poll answers with an **error** (`Ready.fail`) ends its attempt at once: the task sends that error (kind 9, serial 0)
+  as the attempt's result without ever calling the inner service — the attempt was started (it counts, the timer is
+  re-armed), it has failed, and it never makes an inner call (`failAttempt`).
+
+* construction paths (`layer.rs`, `config.rs`): whatever way the service is made, the call sees one `HedgeConfig`:
+  `HedgeLayer::builder()` / `HedgeConfigBuilder::default()` start from `HedgeConfig::default()` (2 attempts, fixed
+  delay of one second: `defaultCfg`); `max_hedged_attempts(n)` stores `max n 1` (`clampMax`: 0 and 1 both mean "the
+  original request only"); `HedgeLayer::new(d)` is `builder().delay(d).build()` (`newCfg`); `.name(..)` and
+  `.on_event(..)` change nothing a caller can see; `Hedge::new(inner, HedgeConfig::default())` needs no layer at all;
+* a `Hedge` service has **no state of its own** besides the shared, immutable configuration: every service built
+  from one layer value (or from a clone of the layer), every clone of a service — taken before or after calls were
+  made — and a handle that is used for one call after the other all behave alike, and calls never influence each
+  other. The model therefore has no notion of a handle: the words `svc=`, `lc=`, `h=`, `from=` of an `arrive` line are
+  not even parsed, the state is a list of independent per-request records (`pollS`/`dropS` touch one record);
+* `Hedge::poll_ready` passes the readiness of the handle's inner service through; an inner readiness **error** is
+  answered `HedgeError::Inner(e)` and no call is made (`Op.refused`: the request gets that result, no record exists);
+* `HedgeError`'s accessors (`accessors`): `AllAttemptsFailed(e)` — `is_all_attempts_failed()`, not `is_inner()`,
+  `inner()`/`into_inner()` = `e`; `Inner(e)` — `is_inner()`, not `is_all_attempts_failed()`, `inner()`/`into_inner()` = `e`.
 
 `attempts` is kept newest-first; `chan`/`recvd` hold the (finished) attempt records themselves.
 -/
@@ -69,6 +87,13 @@ inductive Wait
   | forever             -- the clone never becomes ready
 deriving DecidableEq, Repr
 
+/-- readiness plan entry of a fresh clone, counted from its first readiness poll -/
+inductive Ready
+  | after (d : Nat)     -- ready `d` ms later (0: at once)
+  | never               -- pending for ever
+  | fail                -- the first readiness poll answers `Err` (the error has kind 9 and serial 0)
+deriving DecidableEq, Repr
+
 structure Attempt where
   idx     : Nat               -- attempt number, 0 = primary
   k       : Nat               -- serial of its inner call (meaningful once `wait = .no`)
@@ -86,7 +111,7 @@ deriving DecidableEq, Repr
 
 structure Call where
   plan        : List Step
-  warm        : List (Option Nat) := []   -- readiness plan of the fresh clones (`none` = never ready)
+  warm        : List Ready := []          -- readiness plan of the fresh clones
   phase       : Phase := .fresh
   attempts    : List Attempt := []        -- newest first
   nextHedgeAt : Nat := 0                  -- deadline of `delay_fut`
@@ -114,11 +139,14 @@ deriving DecidableEq, Repr
 instance (n : Nat) : OfNat Fire n := ⟨.done n⟩
 
 inductive Op
-  | arrive (c : Nat) (plan : List Step) (warm : List (Option Nat) := [])
+  | arrive (c : Nat) (plan : List Step) (warm : List Ready := [])
   | poll (c : Nat)
   | drop (c : Nat)
   /-- `order`: what the elapsed timers set off in this advance, in the observed order -/
   | adv (ms : Nat) (order : List Fire)
+  /-- the request is made on a handle whose inner service fails its readiness poll with the error `(kind, v)`:
+  `Hedge::poll_ready` answers `HedgeError::Inner`, the caller never gets as far as `call` -/
+  | refused (c : Nat) (kind v : Nat)
 deriving Repr
 
 def live : Phase → Bool
@@ -192,29 +220,44 @@ def callAttempt (now c : Nat) (w : W) : W :=
   { cl := r.1, serial := w.serial + 1, evs := w.evs ++ [.innerCall c w.serial] ++ r.2 }
 
 /-- readiness plan entry of the next attempt (`none`: not listed, or the primary) -/
-def warmOf (cl : Call) : Option (Option Nat) :=
+def warmOf (cl : Call) : Option Ready :=
   if cl.attempts.length = 0 then none else cl.warm[cl.attempts.length - 1]?
 
-def warmText : Option Nat → String
-  | some d => toString d
-  | none => "never"
+def warmText : Ready → String
+  | .after d => toString d
+  | .never => "never"
+  | .fail => "fail"
 
 /-- first readiness poll of the fresh clone of attempt `i` -/
-def warmEv (c i : Nat) (wv : Option Nat) : Ev := .raw s!"inner_warm {c} {i} {warmText wv}"
+def warmEv (c i : Nat) (wv : Ready) : Ev := .raw s!"inner_warm {c} {i} {warmText wv}"
 
 /-- the attempt exists (its task is spawned) but has not called the inner service yet -/
 def pushWaiting (now : Nat) (wt : Wait) (w : W) : W :=
   let a : Attempt := { idx := w.cl.attempts.length, k := 0, startAt := now, doneAt := 0, out := .never, wait := wt }
   { w with cl := { w.cl with attempts := a :: w.cl.attempts } }
 
+/-- the attempt whose fresh clone answers its first readiness poll with an error: it is started and over in one go —
+its task sends the readiness error (kind 9, serial 0) as the attempt's result and never calls the inner service
+(`wait` stays `.forever`: no serial, no script step, no `inner_call`) -/
+def failedAttempt (now i : Nat) : Attempt :=
+  { idx := i, k := 0, startAt := now, doneAt := now, out := .err 9, wait := .forever }
+
+def failAttempt (now : Nat) (w : W) : W :=
+  let a := failedAttempt now w.cl.attempts.length
+  { w with cl :=
+      if live w.cl.phase && sendable a.out then
+        { w.cl with attempts := { a with fin := some now } :: w.cl.attempts, chan := w.cl.chan ++ [{ a with fin := some now }] }
+      else { w.cl with attempts := { a with fin := some now } :: w.cl.attempts } }
+
 /-- spawn the next attempt: its task polls the readiness of its clone and calls if it is ready -/
 def startAttempt (now c : Nat) (w : W) : W :=
   match warmOf w.cl with
   | none => callAttempt now c w
-  | some (some d) =>
-    if d = 0 then callAttempt now c { w with evs := w.evs ++ [warmEv c w.cl.attempts.length (some d)] }
-    else pushWaiting now (.till (now + d)) { w with evs := w.evs ++ [warmEv c w.cl.attempts.length (some d)] }
-  | some none => pushWaiting now .forever { w with evs := w.evs ++ [warmEv c w.cl.attempts.length none] }
+  | some (.after d) =>
+    if d = 0 then callAttempt now c { w with evs := w.evs ++ [warmEv c w.cl.attempts.length (.after d)] }
+    else pushWaiting now (.till (now + d)) { w with evs := w.evs ++ [warmEv c w.cl.attempts.length (.after d)] }
+  | some .never => pushWaiting now .forever { w with evs := w.evs ++ [warmEv c w.cl.attempts.length .never] }
+  | some .fail => failAttempt now { w with evs := w.evs ++ [warmEv c w.cl.attempts.length .fail] }
 
 /-- the waiting attempt calls the inner service at `now`: serial `k`, script step `st` -/
 def Attempt.call (a : Attempt) (now k : Nat) (st : Step) : Attempt :=
@@ -407,7 +450,7 @@ def advS (s : State) (ms : Nat) (order : List Fire) : State :=
   if orderAllowed d order then order.foldl fireOne s
   else (canonicalOrder d).foldl fireOne { s with log := s.log ++ [.raw "choice-not-allowed"] }
 
-def arriveS (s : State) (c : Nat) (plan : List Step) (warm : List (Option Nat) := []) : State :=
+def arriveS (s : State) (c : Nat) (plan : List Step) (warm : List Ready := []) : State :=
   if (lookup s.calls c).isSome then s else { s with calls := s.calls ++ [(c, { plan := plan, warm := warm })] }
 
 def stepS (cfg : Cfg) (s : State) (op : Op) : State :=
@@ -416,6 +459,7 @@ def stepS (cfg : Cfg) (s : State) (op : Op) : State :=
   | .poll c => pollS cfg s c
   | .drop c => dropS s c
   | .adv ms order => advS s ms order
+  | .refused c kind v => { s with log := s.log ++ [.result c (.inner kind v)] }
 
 def init : State := {}
 def run (cfg : Cfg) (ops : List Op) : State := ops.foldl (stepS cfg) init
@@ -433,14 +477,19 @@ def parseOrder (ws : List String) : List Fire :=
       | _ => none
     else none
 
-/-- `warm=5,0,never` -/
-def parseWarm (s : String) : List (Option Nat) :=
-  ((s.splitOn ",").filter (fun x => !x.isEmpty)).map (·.toNat?)
+/-- `warm=5,0,never,fail` -/
+def parseWarm (s : String) : List Ready :=
+  ((s.splitOn ",").filter (fun x => !x.isEmpty)).map fun x =>
+    if x = "fail" then .fail else match x.toNat? with
+      | some d => .after d
+      | none => .never
 
 def parseOp (ws : List String) : Option Op :=
   match ws with
   | "arrive" :: c :: rest =>
-    some (.arrive (c.toNat?.getD 0) (planOf (parseKv rest)) (parseWarm ((parseKv rest).str "warm" "")))
+    -- `svc=`, `lc=`, `h=`, `from=` (which service of the layer, which handle, a reused or a cloned one) make no difference
+    if (parseKv rest).str "rdy" "ok" = "err" then some (.refused (c.toNat?.getD 0) 9 0)
+    else some (.arrive (c.toNat?.getD 0) (planOf (parseKv rest)) (parseWarm ((parseKv rest).str "warm" "")))
   | "poll" :: c :: _ => some (.poll (c.toNat?.getD 0))
   | "drop" :: c :: _ => some (.drop (c.toNat?.getD 0))
   | "adv" :: ms :: rest => some (.adv (ms.toNat?.getD 0) (parseOrder rest))
@@ -448,15 +497,32 @@ def parseOp (ws : List String) : Option Op :=
 
 /-- one configured delay: microseconds and "not representable as a deadline". A number is in the header's unit
 (`mul` µs); `max` = `Duration::MAX`, `smax` = `Duration::from_secs(u64::MAX)`, `hmax` = `Duration::from_secs(1 << 63)`
-(the smallest whole number of seconds that no `Instant` can be moved by), whatever the unit -/
+(the smallest whole number of seconds that no `Instant` can be moved by), whatever the unit; `dflt` = the documented
+default delay of one second -/
 def delayTok (mul : Nat) (s : String) : Option (Nat × Bool) :=
   if s = "max" then some ((2 ^ 64 - 1) * 1000000 + 999999, true)
   else if s = "smax" then some ((2 ^ 64 - 1) * 1000000, true)
   else if s = "hmax" then some (2 ^ 63 * 1000000, true)
+  else if s = "dflt" then some (1000000, false)
   else s.toNat?.map fun v => (mul * v, false)
 
-/-- header `max=<n> d=<ms> [ds=<ms>,…] [kind=fixed|imm|fn] [unit=ms|us]`; the builder clamps `max`
-to ≥ 1; `unit=us`: `d` and `ds` are microseconds; `d` and the entries of `ds` may be `max`/`smax`/`hmax` -/
+/-- `HedgeConfig::default()` — what `HedgeLayer::builder()`, `HedgeConfigBuilder::default()` start from and what
+`Hedge::new(inner, HedgeConfig::default())` runs with: the original request plus one hedge, one second later -/
+def defaultCfg : Cfg := { max := 2, delay := fun _ => 1000000 }
+
+/-- `HedgeConfigBuilder::max_hedged_attempts(n)`: "including the original request" — there is always the original
+request, so `0` means the same as `1` -/
+def clampMax (n : Nat) : Nat := Nat.max n 1
+
+/-- `HedgeLayer::new(delay)` = `builder().delay(delay).build()`: a single hedge, `d` µs after the original request
+(`nev`: `delay` cannot be added to an `Instant`) -/
+def newCfg (d : Nat) (nev : Bool := false) : Cfg := { max := 2, delay := fun _ => d, never := fun _ => nev }
+
+/-- header `[via=builder|dflt|new|direct] max=<n|dflt> d=<ms|dflt> [ds=<ms>,…] [kind=fixed|imm|fn] [unit=ms|us] [name=…]
+[listen=1]`; the builder clamps `max` to ≥ 1 (`max=0` is a legal argument); `max=dflt`/`d=dflt`: the setter is not
+called; `unit=us`: `d` and `ds` are microseconds; `d` and the entries of `ds` may be `max`/`smax`/`hmax`;
+`via=new`: `HedgeLayer::new(d)`; `via=direct`: no builder at all, the default configuration; `name`, `nameat`, `listen`
+(and `via=dflt`, the builder made by its `Default` impl) change nothing -/
 def cfgOf (kv : Kv) : Cfg :=
   let mul := if kv.str "unit" "ms" = "us" then 1 else 1000
   let d := (delayTok mul (kv.str "d" "0")).getD (0, false)
@@ -466,15 +532,48 @@ def cfgOf (kv : Kv) : Cfg :=
     if kind = "imm" then (0, false)
     else if kind = "fn" then (if 1 ≤ n then ds.getD (n - 1) d else d)
     else d
-  { max := Nat.max (kv.nat "max" 2) 1, delay := fun n => (dl n).1, never := fun n => (dl n).2 }
+  if kv.str "via" "builder" = "direct" then defaultCfg
+  else if kv.str "via" "builder" = "new" then newCfg d.1 d.2
+  else { max := clampMax (kv.nat "max" defaultCfg.max), delay := fun n => (dl n).1, never := fun n => (dl n).2 }
+
+/-! ## what a caller reads off an error through `HedgeError`'s accessors -/
+
+structure Acc where
+  allFailed : Bool          -- `is_all_attempts_failed()`
+  isInner   : Bool          -- `is_inner()`
+  ref       : Nat × Nat     -- `inner()`: kind and serial of the inner error
+  into      : Nat × Nat     -- `into_inner()` (of a clone of the error)
+deriving DecidableEq, Repr
+
+/-- the accessors' answers for each result a caller can get (`none`: not an error value of the layer) -/
+def accessors : Res → Option Acc
+  | .allFailed k v => some ⟨true, false, (k, v), (k, v)⟩
+  | .inner k v => some ⟨false, true, (k, v), (k, v)⟩
+  | _ => none
+
+def Acc.render (a : Acc) : String :=
+  s!"acc=af:{if a.allFailed then 1 else 0},in:{if a.isInner then 1 else 0},ref:inner{a.ref.1}:{a.ref.2},into:inner{a.into.1}:{a.into.2}"
+
+/-- the result line of a caller that inspects its error (`arrive … acc=1`) carries the accessors' answers -/
+def withAcc (accs : List Nat) : Ev → Ev
+  | .result c r =>
+    if accs.contains c then
+      match accessors r with
+      | some a => .result c (.custom s!"{r.render} {a.render}")
+      | none => .result c r
+    else .result c r
+  | e => e
 
 def machine : Machine where
-  σ := Cfg × State
-  init kv := (cfgOf kv, init)
-  step := fun (cfg, s) ws =>
+  σ := Cfg × State × List Nat
+  init kv := (cfgOf kv, init, [])
+  step := fun (cfg, s, accs) ws =>
+    let accs := match ws with
+      | "arrive" :: c :: rest => if (parseKv rest).nat "acc" 0 = 1 then (c.toNat?.getD 0) :: accs else accs
+      | _ => accs
     match parseOp ws with
-    | some op => let s' := stepS cfg s op; ((cfg, s'), s'.log.drop s.log.length)
-    | none => ((cfg, s), [])
-  now := fun (_, s) => s.now
+    | some op => let s' := stepS cfg s op; ((cfg, s', accs), (s'.log.drop s.log.length).map (withAcc accs))
+    | none => ((cfg, s, accs), [])
+  now := fun (_, s, _) => s.now
 
 end TR.Hedge
